@@ -15,7 +15,7 @@ RULE = ("per parsed format, responses built by vf/spec/responses.py: every field
         "Non-trivial = any non-zero value or at least one descriptor; distinct = distinct response byte strings.")
 ASSUMPTIONS = [
     "oracle: vf/spec/responses.py (DESIGN.md Appendix B), whole-buffer integer deposit; expected values are compared under the library's own result keys",
-    "only values the encoder placed are compared (extra keys in the result are ignored); list lengths and order must match exactly",
+    "only values the encoder placed are compared (extra keys in the result are ignored); list lengths and order must match exactly; every result is compared a second time after the next response has been decoded (results must not share state)",
     "excluded (DESIGN §6): SOP TransportIDs, PCIe routing-id designator, multi-page MODE SENSE responses, READ CD selections that name a field the sector type lacks",
 ]
 
@@ -337,6 +337,7 @@ def run_case(case, obs=None):
         return [("%s/raises" % fmt, "%s: decoding a conformant response (%s...) raised %s: %s" % (fmt, data[:24].hex(), type(e).__name__, e))]
     if obs is not None:
         obs.append(hash(data))
+        obs.append((fmt, exp, got))
     compare(exp, got, "", out, fmt)
     return out
 
@@ -513,6 +514,7 @@ def gen(part, tier):
 
 def run_partition(part, tier, seed):
     acc = Acc(seed)
+    prev = None
     for case in gen(part, tier):
         obs = []
         try:
@@ -520,6 +522,13 @@ def run_partition(part, tier, seed):
         except Exception:
             import traceback
             v = [("harness_error/%s" % case[0], traceback.format_exc()[-600:])]
+        # the previously decoded result must still hold what its device sent (no state shared between decodes)
+        if prev is not None and not prev[3]:
+            again = []
+            compare(prev[1], prev[2], "", again, prev[0])
+            for kk, w in again:
+                v.append(("%s/earlier_result_changed" % prev[0], "after decoding another response, an earlier result changed: " + w))
+        prev = (obs[1] + (bool(v),)) if len(obs) > 1 else None
         acc.case(case, nontrivial=True, key=obs[0] if obs else repr(case))
         for kk, w in v:
             acc.violation(kk, w, case)
